@@ -67,6 +67,19 @@ Section L.
   Lemma getC_register : forall w si i sp k, getC (register w si i sp) k = getC w k.
   Proof. reflexivity. Qed.
 
+  Lemma getH_lock_move : forall w a b k, getH (lock_move w a b) k = getH w k.
+  Proof. reflexivity. Qed.
+  Lemma getC_lock_move : forall w a b k, getC (lock_move w a b) k = getC w k.
+  Proof. reflexivity. Qed.
+  Lemma getS_lock_move : forall w a b k, getS (lock_move w a b) k = getS w k.
+  Proof. reflexivity. Qed.
+  Lemma getH_lock_add : forall w a k, getH (lock_add w a) k = getH w k.
+  Proof. reflexivity. Qed.
+  Lemma getC_lock_add : forall w a k, getC (lock_add w a) k = getC w k.
+  Proof. reflexivity. Qed.
+  Lemma getS_lock_add : forall w a k, getS (lock_add w a) k = getS w k.
+  Proof. reflexivity. Qed.
+
   Lemma getH_set_H_same : forall w i h, (i < length (w_hs w))%nat -> getH (set_H w i h) i = h.
   Proof. intros. unfold getH, set_H. simpl. apply nth_set_nth_same. auto. Qed.
   Lemma getH_set_H_other : forall w i k h, k <> i -> getH (set_H w i h) k = getH w k.
